@@ -9,10 +9,17 @@ pub struct Stats {
     pub counters: BTreeMap<String, u64>,
     /// named sets of 64-bit digests; merged by union
     pub sets: BTreeMap<String, HashSet<u64>>,
+    /// parent side: members of sets read back from workers (sorted and
+    /// de-duplicated by `finalize`)
+    pub merged: BTreeMap<String, Vec<u64>>,
     pub samples: Vec<J>,
     /// simulated time covered (netsim), microseconds
     pub sim_time_us: u64,
+    /// distinct-set members not recorded because a worker's set was full
+    pub overflow: u64,
 }
+
+pub const SET_CAP_PER_WORKER: usize = 1_500_000;
 
 impl Stats {
     pub fn new() -> Stats {
@@ -39,6 +46,14 @@ impl Stats {
     }
     pub fn mark(&mut self, set: &str, digest: u64) {
         if let Some(s) = self.sets.get_mut(set) {
+            // bounded memory: beyond the cap members are no longer recorded
+            // and the distinct count becomes a lower bound
+            if s.len() >= SET_CAP_PER_WORKER {
+                if !s.contains(&digest) {
+                    self.overflow += 1;
+                }
+                return;
+            }
             s.insert(digest);
         } else {
             let mut s = HashSet::new();
@@ -48,6 +63,23 @@ impl Stats {
     }
     pub fn set_len(&self, set: &str) -> u64 {
         self.sets.get(set).map(|s| s.len() as u64).unwrap_or(0)
+            + self.merged.get(set).map(|s| s.len() as u64).unwrap_or(0)
+    }
+    /// Folds all set members into sorted, de-duplicated vectors.
+    pub fn finalize(&mut self) {
+        for (k, s) in std::mem::take(&mut self.sets) {
+            self.merged.entry(k).or_default().extend(s);
+        }
+        for v in self.merged.values_mut() {
+            v.sort_unstable();
+            v.dedup();
+        }
+    }
+    pub fn set_names(&self) -> Vec<String> {
+        let mut n: Vec<String> = self.sets.keys().chain(self.merged.keys()).cloned().collect();
+        n.sort();
+        n.dedup();
+        n
     }
     pub fn sample(&mut self, j: J) {
         if self.samples.len() < 3 {
@@ -59,8 +91,12 @@ impl Stats {
             *self.counters.entry(k).or_insert(0) += v;
         }
         for (k, s) in other.sets {
-            self.sets.entry(k).or_default().extend(s);
+            self.merged.entry(k).or_default().extend(s);
         }
+        for (k, s) in other.merged {
+            self.merged.entry(k).or_default().extend(s);
+        }
+        self.overflow += other.overflow;
         for s in other.samples {
             if self.samples.len() < 3 {
                 self.samples.push(s);
@@ -79,6 +115,7 @@ impl Stats {
             .set("counters", c)
             .set("samples", J::Arr(self.samples.clone()))
             .set("sim_time_us", J::u(self.sim_time_us))
+            .set("overflow", J::u(self.overflow))
     }
     pub fn from_json(j: &J) -> Result<Stats, String> {
         let mut s = Stats::new();
@@ -91,6 +128,7 @@ impl Stats {
             s.samples = a.clone();
         }
         s.sim_time_us = j.get("sim_time_us").and_then(|v| v.as_u64()).unwrap_or(0);
+        s.overflow = j.get("overflow").and_then(|v| v.as_u64()).unwrap_or(0);
         Ok(s)
     }
     pub fn write_sets(&self, path: &std::path::Path) -> std::io::Result<()> {
@@ -119,9 +157,10 @@ impl Stats {
             i += nl;
             let n = u64::from_le_bytes(data[i..i + 8].try_into().unwrap()) as usize;
             i += 8;
-            let set = self.sets.entry(name).or_default();
+            let set = self.merged.entry(name).or_default();
+            set.reserve(n);
             for _ in 0..n {
-                set.insert(u64::from_le_bytes(data[i..i + 8].try_into().unwrap()));
+                set.push(u64::from_le_bytes(data[i..i + 8].try_into().unwrap()));
                 i += 8;
             }
         }
